@@ -10,7 +10,7 @@ ACCESSORS = {
     'AugerRate': (0, 995), 'AugerYield': (0, 8), 'LineEnergy': (-383, 0), 'RadRate': (-383, 0),
 }
 SPEC = ['AtomicWeight', 'ElementDensity', 'EdgeEnergy', 'FluorYield', 'JumpFactor', 'AtomicLevelWidth',
-        'CosKronTransProb', 'ElectronConfig', 'AugerRate', 'AugerYield', 'LineEnergy', 'RadRate']
+        'CosKronTransProb', 'ElectronConfig', 'ElectronConfig_Biggs', 'AugerRate', 'AugerYield', 'LineEnergy', 'RadRate']
 
 class C01(Check):
     id = 'C01'
